@@ -3,6 +3,7 @@ import RV.Proofs.OrbitRoundTrip
 import RV.Proofs.OrbitAngles
 import RV.Proofs.OrbitReal
 import RV.Proofs.OrbitPal
+import RV.Proofs.OrbitPalInverse
 import RV.Gen.C11Args
 import Mathlib.Data.Rat.Defs
 import Mathlib.Algebra.Order.Field.Rat
@@ -338,6 +339,25 @@ theorem c11_reader_of_fromPal_partial {L : Libm K} (hsq : ∀ x, L.cos x ^ 2 + L
     o.pal_h = h ∧ o.pal_k = k ∧ o.pal_ix = ix ∧ o.pal_iy = iy ∧ o.a = a ∧
     o.d = a * (1 - (@solveKeplerPal K L.orbitK v h k lam).2) :=
   reader_of_fromPal hsq hsqrt hfabs v G pr m a lam k h ix iy t0 o ho hK ha hmu he hi
+
+/-- FULL inverse for Pal elements through `reb_tools_particle_to_pal` (the routine
+    derivatives.c uses), on the model functions: applied to `reb_particle_from_pal (a, λ, k, h, ix, iy)`
+    it returns h, k, ix, iy, a exactly and λ modulo 2π (bound orbit, `ix²+iy² < 4`, `a > 0`, μ > 0,
+    `0 ≤ λ+p < 4π`).  Hypotheses: the solver output satisfies Pal's Kepler equation; `TrigSpec`;
+    `atan2(ρ sin t, ρ cos t) = t` for t ∈ (-π, π], ρ > 0. -/
+theorem c11_particleToPal_of_fromPal {L : Libm K} (T : TrigSpec L)
+    (hsqrt : ∀ x, 0 ≤ x → 0 ≤ L.sqrt x ∧ L.sqrt x ^ 2 = x) (hfabs : ∀ x, 0 ≤ x → L.fabs x = x)
+    (hatan2 : ∀ t rho : K, 0 < rho → -L.pi < t → t ≤ L.pi → L.atan2 (rho * L.sin t) (rho * L.cos t) = t)
+    (v : Variant) (G : K) (pr : Orbit.Part K) (m a lam k h ix iy : K)
+    (hK : (@solveKeplerPal K L.orbitK v h k lam).1 = k * L.sin (lam + (@solveKeplerPal K L.orbitK v h k lam).1)
+            - h * L.cos (lam + (@solveKeplerPal K L.orbitK v h k lam).1) ∧
+          (@solveKeplerPal K L.orbitK v h k lam).2 = k * L.cos (lam + (@solveKeplerPal K L.orbitK v h k lam).1)
+            + h * L.sin (lam + (@solveKeplerPal K L.orbitK v h k lam).1))
+    (ha : 0 < a) (hmu : 0 < G * (m + pr.m)) (he : h * h + k * k < 1) (hi : ix * ix + iy * iy < 4)
+    (hlam : 0 ≤ lam + (@solveKeplerPal K L.orbitK v h k lam).1 ∧ lam + (@solveKeplerPal K L.orbitK v h k lam).1 < 4 * L.pi) :
+    let e := @particleToPal K L.orbitK G (@fromPal K L.orbitK v G pr m a lam k h ix iy) pr
+    e.h = h ∧ e.k = k ∧ e.ix = ix ∧ e.iy = iy ∧ e.a = a ∧ ∃ n : ℤ, e.lambda = lam - n * (2 * L.pi) :=
+  particleToPal_of_fromPal T hsqrt hfabs hatan2 v G pr m a lam k h ix iy hK ha hmu he hi hlam
 
 /-- the polynomial core of the Pal construction: with c²+s²=1, (1-l)² = 1-h²-k² and
     p = k s - h c, q = k c + h s: r = a(1-q), the in-plane angular momentum is a·an·(1-l),
